@@ -180,8 +180,12 @@ pub fn history(enc: &'static Encoding, prof: EProfile) -> impl Strategy<Value = 
         let (chars, cutf, capx, (s, k, fill, align), (repl, last_on_empty, utf16)) = r;
         let src = if utf16 { Src::Utf16 } else { Src::Utf8 };
         let mut text: Vec<u32> = Vec::new();
-        for (kind, x) in &chars {
-            text_token(algo, utf16, *kind, *x, &mut text);
+        // one history in 32 is long: the token list repeated 4..=35 times with varied parameters
+        let reps = if fill % 32 == 5 { 4 + (align >> 3) as usize } else { 1 };
+        for i in 0..reps {
+            for (kind, x) in &chars {
+                text_token(algo, utf16, *kind, x.wrapping_add((i as u32).wrapping_mul(0x9E37_79B9)), &mut text);
+            }
         }
         if prof.mappable_only {
             for c in text.iter_mut() {
